@@ -12,6 +12,7 @@ From SWH.lib Require Import Bytes Dec DecPad.
 From SWH Require Import Generated.
 From SWH.model Require Import Time.
 From SWH.proofs Require Import TimeProofs.
+From SWH.proofs Require TimeExamples.
 Import ListNotations.
 Open Scope Z_scope.
 
